@@ -386,3 +386,46 @@ var hostileNames = func() []string {
 	}
 	return out
 }()
+
+// Features summarises the structural features of the first CBOR item of b that strict decoders
+// are expected to refuse.
+type Features struct {
+	Parsed  bool // b starts with a well-delimited item (within the mutator's own limits)
+	TooDeep bool // nesting exceeds the mutator's parser limit (200)
+	Indef   bool // contains an indefinite-length item
+	Tag     bool // contains a tag
+	Depth   int  // maximum nesting depth (a scalar has depth 0)
+	DupTop  bool // the top-level item is a map with two byte-identical keys
+	Used    int  // bytes consumed by the item
+}
+
+// Scan computes the Features of b.
+func Scan(b []byte) Features {
+	it, used, err := Parse(b)
+	if err != nil {
+		return Features{TooDeep: err == errDeep}
+	}
+	f := Features{Parsed: true, Used: used}
+	for _, x := range Flatten(it) {
+		if x.Indef {
+			f.Indef = true
+		}
+		if x.Major == 6 {
+			f.Tag = true
+		}
+		if x.Depth > f.Depth {
+			f.Depth = x.Depth
+		}
+	}
+	if it.Major == 5 {
+		seen := map[string]bool{}
+		for i := 0; i+1 < len(it.Kids); i += 2 {
+			k := string(b[it.Kids[i].Start:it.Kids[i].End])
+			if seen[k] {
+				f.DupTop = true
+			}
+			seen[k] = true
+		}
+	}
+	return f
+}
